@@ -168,10 +168,19 @@ fn has_mem(ins: &Instruction) -> bool {
 
 /// Emit one single-instruction case.
 pub fn emit_case(rng: &mut Rng, bytes0: &[u8], out: &mut Vec<String>, native_friendly: bool) -> Option<()> {
+    // where the code lives: mostly the usual place, sometimes above 4 GiB or just below it (branch targets and RIP-relative
+    // operands then need all 64 bits)
+    let code_base: u64 = match rng.below(10) {
+        0 => 0x1_0000_0000,
+        1 => 0x5555_5555_4000,
+        2 => 0xffff_e000,
+        3 => 0x1234_5678_9000,
+        _ => CODE,
+    };
     let mut bytes = bytes0.to_vec();
     // re-randomise immediate and displacement fields
     {
-        let mut d = Decoder::with_ip(64, &bytes, CODE, DecoderOptions::NONE);
+        let mut d = Decoder::with_ip(64, &bytes, code_base, DecoderOptions::NONE);
         let ins0 = d.decode();
         let co = d.get_constant_offsets(&ins0);
         let mut fill = |off: usize, n: usize, rng: &mut Rng, bytes: &mut Vec<u8>| {
@@ -215,11 +224,11 @@ pub fn emit_case(rng: &mut Rng, bytes0: &[u8], out: &mut Vec<String>, native_fri
     // aliased operands (same register twice, RSP/RBP/R12/R13 as operand or base, a base that is also the destination) all occur
     {
         let d0 = {
-            let mut d = Decoder::with_ip(64, &bytes, CODE, DecoderOptions::NONE);
+            let mut d = Decoder::with_ip(64, &bytes, code_base, DecoderOptions::NONE);
             d.decode()
         };
         let key0 = (d0.code(), d0.len(), shape_key(&d0));
-        let mut d = Decoder::with_ip(64, &bytes, CODE, DecoderOptions::NONE);
+        let mut d = Decoder::with_ip(64, &bytes, code_base, DecoderOptions::NONE);
         let i0 = d.decode();
         let co = d.get_constant_offsets(&i0);
         let mut head = bytes.len();
@@ -244,14 +253,14 @@ pub fn emit_case(rng: &mut Rng, bytes0: &[u8], out: &mut Vec<String>, native_fri
                 _ if cand[k] & 0xf0 == 0x40 => cand[k] = (cand[k] & !0x07) | rng.below(8) as u8,
                 _ => continue,
             }
-            let mut dd = Decoder::with_ip(64, &cand, CODE, DecoderOptions::NONE);
+            let mut dd = Decoder::with_ip(64, &cand, code_base, DecoderOptions::NONE);
             let i1 = dd.decode();
             if !i1.is_invalid() && (i1.code(), i1.len(), shape_key(&i1)) == key0 {
                 bytes = cand;
             }
         }
     }
-    let mut d = Decoder::with_ip(64, &bytes, CODE, DecoderOptions::NONE);
+    let mut d = Decoder::with_ip(64, &bytes, code_base, DecoderOptions::NONE);
     let ins = d.decode();
     if ins.is_invalid() || ins.len() != bytes.len() {
         return None;
@@ -275,14 +284,23 @@ pub fn emit_case(rng: &mut Rng, bytes0: &[u8], out: &mut Vec<String>, native_fri
         regs[1] = (regs[1] & !0xff) | rng.below(0x48);
     }
     // stack pointer inside the stack page (edges included)
-    let stack_len = 0x1000u64;
+    // the stack: usually one page in the usual place; sometimes two pages around an address where adding or subtracting the
+    // operand size carries out of bit 15 / bit 31 (a stack pointer updated through a narrower register view shows there)
+    let (stack_base, stack_len): (u64, u64) = match rng.below(8) {
+        0 => (0x6fff_f000, 0x2000),
+        1 if code_base != 0xffff_e000 => (0xffff_f000, 0x2000),
+        2 => (0x2_ffff_f000, 0x2000),
+        _ => (STACK, 0x1000),
+    };
     regs[4] = match rng.below(12) {
-        0 => STACK,
-        1 => STACK + stack_len - 8,
-        2 => STACK + stack_len,
-        3 => STACK - 8,
-        4 => STACK + stack_len - 16,
-        _ => STACK + 0x800 + 8 * rng.below(0x40),
+        0 => stack_base,
+        1 => stack_base + stack_len - 8,
+        2 => stack_base + stack_len,
+        3 => stack_base - 8,
+        4 => stack_base + stack_len - 16,
+        5 | 6 if stack_len == 0x2000 => stack_base + 0x1000 - 16 + 2 * rng.below(17),
+        _ if stack_len == 0x2000 => stack_base + 0x1000 + 8 * rng.below(4) - 16,
+        _ => stack_base + 0x800 + 8 * rng.below(0x40),
     };
     let flags = {
         let f = rng.next();
@@ -350,6 +368,26 @@ pub fn emit_case(rng: &mut Rng, bytes0: &[u8], out: &mut Vec<String>, native_fri
             };
             if let Some(n) = adj {
                 regs[n] = regs[n].wrapping_add(delta);
+            }
+        }
+    }
+    // JRCXZ / JECXZ: the halves of RCX decide
+    if matches!(ins.mnemonic(), Mnemonic::Jrcxz | Mnemonic::Jecxz) && rng.chance(3, 4) {
+        regs[1] = *rng.pick(&[0u64, 1, 1 << 32, (1 << 32) + 1, 0xffff_ffff_0000_0000, 1 << 63, 0xffff_ffff, 0x8000_0000]);
+    }
+    // shifts: the interesting counts are around the masking boundaries (0, 1, width-1, width, width+1, 31/32/33, 63/64/65,
+    // and the same plus multiples of 32/64 up to 255), which a random byte hits once in a while at best
+    if matches!(ins.mnemonic(), Mnemonic::Shl | Mnemonic::Shr | Mnemonic::Sar | Mnemonic::Rol | Mnemonic::Ror) && rng.chance(2, 3) {
+        let base = *rng.pick(&[0u64, 1, 2, 7, 8, 9, 15, 16, 17, 31, 32, 33, 63, 64, 65]);
+        let count = (base + *rng.pick(&[0u64, 0, 0, 32, 64, 96, 128, 192, 224])) & 0xff;
+        if ins.op_count() == 2 && ins.op1_kind() == OpKind::Register && ins.op1_register() == Register::CL {
+            regs[1] = (regs[1] & !0xff) | count;
+        } else if ins.op_count() == 2 && matches!(ins.op1_kind(), OpKind::Immediate8) {
+            let mut d = Decoder::with_ip(64, &bytes, code_base, DecoderOptions::NONE);
+            let i0 = d.decode();
+            let co = d.get_constant_offsets(&i0);
+            if co.has_immediate() && co.immediate_size() == 1 {
+                bytes[co.immediate_offset()] = count as u8;
             }
         }
     }
@@ -434,12 +472,143 @@ pub fn emit_case(rng: &mut Rng, bytes0: &[u8], out: &mut Vec<String>, native_fri
             }
         }
     }
+    // two-operand arithmetic: relate the operands (carry chains end exactly at all-ones, products exactly at the signed and
+    // unsigned limits, equal / complementary / negated operands) - independent random values practically never do
+    {
+        use Mnemonic::*;
+        let two_op = matches!(ins.mnemonic(), Add | Adc | Sub | Sbb | Cmp | And | Or | Xor | Test | Imul | Cmove | Cmovne | Cmovae | Xchg)
+            && ins.op_count() >= 2;
+        let mul1 = matches!(ins.mnemonic(), Mul | Imul) && ins.op_count() == 1;
+        let addr_regs: Vec<usize> = [ins.memory_base(), ins.memory_index()]
+            .iter()
+            .filter(|r| r.is_gpr64() || r.is_gpr32())
+            .map(|r| r.number())
+            .collect();
+        // (parent register, shift, width) of a register operand, if it may be set freely
+        let reg_loc = |r: Register| -> Option<(usize, u32, u32)> {
+            if !(r.is_gpr64() || r.is_gpr32() || r.is_gpr16() || r.is_gpr8()) {
+                return None;
+            }
+            let p = r.full_register().number();
+            if p == 4 || addr_regs.contains(&p) {
+                return None;
+            }
+            let sh = if matches!(r, Register::AH | Register::CH | Register::DH | Register::BH) { 8 } else { 0 };
+            Some((p, sh, 8 * r.size() as u32))
+        };
+        let maskw = |w: u32| if w >= 64 { u64::MAX } else { (1u64 << w) - 1 };
+        if mem_patch.is_none() && (two_op || mul1) && rng.chance(2, 5) {
+            // operand 0 = destination (or the single explicit operand), operand "src" = the last explicit one
+            let k_src = if mul1 { 0 } else { 1 };
+            let dst_reg = if mul1 { reg_loc(Register::RAX).map(|(p, s, _)| (p, s, 8 * ins.op0_register().size().max(sz as usize) as u32)) } else if ins.op0_kind() == OpKind::Register { reg_loc(ins.op0_register()) } else { None };
+            let w: u32 = if ins.op0_kind() == OpKind::Register && !mul1 { 8 * ins.op0_register().size() as u32 } else if ins.op0_kind() == OpKind::Register { 8 * ins.op0_register().size() as u32 } else { 8 * sz as u32 };
+            if (8..=64).contains(&w) {
+                let m = maskw(w);
+                let d: u64 = match rng.below(6) {
+                    0 => m,
+                    1 => 1u64 << (w - 1),
+                    2 => (1u64 << (w - 1)) - 1,
+                    3 => 0,
+                    _ => rng.val_w(w) & m,
+                };
+                let is_mul = matches!(ins.mnemonic(), Mul | Imul);
+                let sv: u64 = if is_mul {
+                    // a product at a boundary: pick the product, derive the second factor
+                    let a = if d == 0 { 3 } else { d };
+                    let sa: i128 = if ins.mnemonic() == Imul { ((a << (64 - w)) as i64 >> (64 - w)) as i128 } else { a as i128 };
+                    let lim = 1i128 << (w - 1);
+                    let target: i128 = *rng.pick(&[lim - 1, lim, 2 * lim - 1, 2 * lim, -lim, -lim - 1, -2 * lim, 2 * lim + 1, lim + 1]);
+                    let b = if sa != 0 { target / sa } else { 1 };
+                    (b as u64) & m
+                } else {
+                    match rng.below(8) {
+                        0 => !d & m,
+                        1 => d.wrapping_neg() & m,
+                        2 => d,
+                        3 => (!d).wrapping_sub(1) & m,
+                        4 => d.wrapping_add(1) & m,
+                        5 => d.wrapping_sub(1) & m,
+                        6 => (m - d).wrapping_add(1) & m,
+                        _ => 1,
+                    }
+                };
+                // destination
+                let mut ok = true;
+                let mut patches: Vec<(u64, Vec<u8>)> = vec![];
+                let le = |v: u64, n: u32| (0..(n / 8) as usize).map(|k| (v >> (8 * k)) as u8).collect::<Vec<u8>>();
+                if mul1 {
+                    if let Some((p, sh, _)) = dst_reg { regs[p] = (regs[p] & !(m << sh)) | ((sv & m) << sh); } else { ok = false; }
+                    // the explicit operand takes d
+                    if ins.op0_kind() == OpKind::Register {
+                        match reg_loc(ins.op0_register()) {
+                            Some((p, sh, _)) if p != 0 => regs[p] = (regs[p] & !(m << sh)) | (d << sh),
+                            _ => ok = false,
+                        }
+                    } else if let Some(a) = ea_of(&regs) {
+                        patches.push((a, le(d, w)));
+                    }
+                } else {
+                    match ins.op0_kind() {
+                        OpKind::Register => match reg_loc(ins.op0_register()) {
+                            Some((p, sh, _)) => regs[p] = (regs[p] & !(m << sh)) | (d << sh),
+                            None => ok = false,
+                        },
+                        OpKind::Memory => {
+                            if let Some(a) = ea_of(&regs) { patches.push((a, le(d, w))); } else { ok = false; }
+                        }
+                        _ => ok = false,
+                    }
+                    // source
+                    if ok {
+                        match ins.op_kind(k_src) {
+                            OpKind::Register => {
+                                let r = ins.op_register(k_src);
+                                let same = ins.op0_kind() == OpKind::Register && r.full_register() == ins.op0_register().full_register();
+                                match reg_loc(r) {
+                                    Some((p, sh, sw)) if !same => {
+                                        let smk = maskw(sw);
+                                        regs[p] = (regs[p] & !(smk << sh)) | ((sv & smk) << sh);
+                                    }
+                                    _ => ok = false,
+                                }
+                            }
+                            OpKind::Memory => {
+                                if let Some(a) = ea_of(&regs) { patches.push((a, le(sv, w))); } else { ok = false; }
+                            }
+                            OpKind::Immediate8 | OpKind::Immediate16 | OpKind::Immediate32 | OpKind::Immediate64
+                            | OpKind::Immediate8to16 | OpKind::Immediate8to32 | OpKind::Immediate8to64 | OpKind::Immediate32to64 => {
+                                let mut dd = Decoder::with_ip(64, &bytes, code_base, DecoderOptions::NONE);
+                                let i0 = dd.decode();
+                                let co = dd.get_constant_offsets(&i0);
+                                if co.has_immediate() {
+                                    let n = co.immediate_size();
+                                    // representable (after sign extension) in the immediate field?
+                                    let sx = |v: u64, bits: u32| if bits >= 64 { v } else { (((v << (64 - bits)) as i64) >> (64 - bits)) as u64 };
+                                    let trunc = sv & maskw(8 * n as u32);
+                                    let back = if (n as u32) * 8 < w { sx(trunc, 8 * n as u32) & m } else { trunc & m };
+                                    if back == sv & m {
+                                        for j in 0..n { bytes[co.immediate_offset() + j] = (trunc >> (8 * j)) as u8; }
+                                    }
+                                }
+                            }
+                            _ => {}
+                        }
+                    }
+                }
+                if ok {
+                    if let Some(p0) = patches.into_iter().next() {
+                        mem_patch = Some(p0);
+                    }
+                }
+            }
+        }
+    }
     let ea = ea_of(&regs);
-    out.push(format!("new {} {:x} {:x}", hex(&bytes), CODE, CODE));
-    out.push(dec_line(&bytes, CODE, CODE)?);
+    out.push(format!("new {} {:x} {:x}", hex(&bytes), code_base, code_base));
+    out.push(dec_line(&bytes, code_base, code_base)?);
     let mut rv: Vec<String> = regs.iter().map(|r| format!("{:x}", r)).collect();
-    rv.push(format!("{:x}", CODE));
-    out.push(format!("areaz {:x} {:x} {:x} Stack", STACK, stack_len, rng.next()));
+    rv.push(format!("{:x}", code_base));
+    out.push(format!("areaz {:x} {:x} {:x} Stack", stack_base, stack_len, rng.next()));
     let mut window: Option<(u64, u64)> = None;
     if let Some(ea) = ea {
         if place != Place::Unmapped {
@@ -449,15 +618,15 @@ pub fn emit_case(rng: &mut Rng, bytes0: &[u8], out: &mut Vec<String>, native_fri
             let len = 0x1000 * pages;
             let collides = |s: u64, l: u64, a: u64, al: u64| s < a.wrapping_add(al) && a < s.wrapping_add(l);
             let ok = page.checked_add(len).is_some()
-                && !collides(page, len, CODE & !0xfff, 0x1000)
-                && !collides(page, len, STACK, stack_len);
+                && !collides(page, len, code_base & !0xfff, 0x1000)
+                && !collides(page, len, stack_base, stack_len);
             if ok {
                 // the emulator's unit of mapping is the area: an access may not run from one area into the next, while two
                 // adjacent native mappings are one contiguous range. A data area touching the stack or code page would
                 // make the comparison about that difference, which C08 sanctions ("runs past the end of its area"):
                 // such layouts are compared between implementation and model only
-                let cp = CODE & !0xfff;
-                if page + len == STACK || page == STACK + stack_len || page + len == cp || page == cp + 0x1000 {
+                let cp = code_base & !0xfff;
+                if page + len == stack_base || page == stack_base + stack_len || page + len == cp || page == cp + 0x1000 {
                     out.push("nonative".into());
                 }
                 out.push(format!("areaz {:x} {:x} {:x} data", page, len, rng.next()));
@@ -479,7 +648,7 @@ pub fn emit_case(rng: &mut Rng, bytes0: &[u8], out: &mut Vec<String>, native_fri
     }
     if let Some(ea) = ea {
         // natively the whole code page is mapped RWX: an operand in (or reaching into) it cannot be compared with the CPU
-        let cp = CODE & !0xfff;
+        let cp = code_base & !0xfff;
         if class != Class::Lea && ea.wrapping_add(32) >= cp && ea < cp + 0x1000 {
             out.push("nonative".into());
         }
@@ -496,8 +665,8 @@ pub fn emit_case(rng: &mut Rng, bytes0: &[u8], out: &mut Vec<String>, native_fri
     out.push("regs".into());
     out.push("state".into());
     out.push("xmms".into());
-    let sws = regs[4].saturating_sub(32).max(STACK).min(STACK + stack_len - 1);
-    let swe = (regs[4].saturating_add(48)).min(STACK + stack_len).max(sws + 1);
+    let sws = regs[4].saturating_sub(32).max(stack_base).min(stack_base + stack_len - 1);
+    let swe = (regs[4].saturating_add(48)).min(stack_base + stack_len).max(sws + 1);
     out.push(format!("mrb {:x} {:x}", sws, swe - sws));
     if let Some((s, l)) = window {
         out.push(format!("mrb {:x} {:x}", s, l));
